@@ -364,6 +364,7 @@ func genConcurrent(prop string) func(rng *simkit.Rand, tier string, idx int) *si
 		c.Cfg["yield_den"] = []int64{2, 2, 8, 64}[rng.Intn(4)]
 		c.Cfg["max_packet"] = 1400
 		c.Cfg["net_quantum_us"] = []int64{0, 1000}[rng.Intn(2)]
+		c.Cfg["late_joiners"] = int64(rng.Intn(3))
 		return c
 	}
 }
@@ -394,9 +395,9 @@ func execConcurrent(run *simkit.Run) {
 	tick := func() int { seq++; return seq } // global event sequence number (call under smu)
 	for wi := 0; wi < c.Int("workers"); wi++ {
 		wg.Add(1)
+		nd := w.nodes[wi%len(w.nodes)]
 		go func(wi int, rng *simkit.Rand) {
 			defer wg.Done()
-			nd := w.nodes[wi%len(w.nodes)]
 			var mine []*fakeUpstream
 			for k := 0; k < c.Int("ops"); k++ {
 				t0 := time.Now()
@@ -455,7 +456,10 @@ func execConcurrent(run *simkit.Run) {
 					smu.Unlock()
 				}
 				if rng.Intn(3) == 0 {
-					time.Sleep(time.Duration(rng.Intn(3000)) * time.Microsecond)
+					// on a millisecond grid, so that the workers' activity coincides (same
+					// virtual instant) with deliveries and membership changes and the
+					// scheduler decides the interleaving
+					time.Sleep(time.Duration(1+rng.Intn(3)) * time.Millisecond)
 				}
 			}
 			// what this worker leaves registered is the ground truth
@@ -465,6 +469,21 @@ func execConcurrent(run *simkit.Run) {
 			}
 			smu.Unlock()
 		}(wi, run.Aux.Fork())
+	}
+	// membership churn while the workers run: nodes that join late are first
+	// "pending" in every syncer, which is where the syncer's own lock is taken
+	// from inside gossip's notification path
+	for j := 0; j < c.Int("late_joiners"); j++ {
+		wg.Add(1)
+		go func(rng *simkit.Rand) {
+			defer wg.Done()
+			time.Sleep(time.Duration(rng.Intn(20)) * time.Millisecond)
+			smu.Lock()
+			nd := w.addNode()
+			smu.Unlock()
+			nd.sg.JoinOnBoot([]string{w.nodes[0].addr})
+			run.Probe("c20.late_joiner_during_activity")
+		}(run.Aux.Fork())
 	}
 	wg.Wait()
 	if slowest > time.Second {
